@@ -5,6 +5,8 @@ repository's functions is never written in a template: it is extracted on every 
 
 Top-level directives
   //@include <file under units/>
+  //@stub <repo file> <[ImplHdr::]name>            external_body declaration generated from the REAL signature (R2);
+                                                   lines up to //@end are its ASSUMED contract
   //@type <repo file> <Name>                       struct/enum/const/type; attributes+comments dropped (D1)
   //@fn <repo file> <[ImplHdr::]name>              whole function, verbatim
   //@fragment <repo file> <[ImplHdr::]name> `from` .. `to`     statement range (D2: rest of fn dropped)
@@ -137,6 +139,12 @@ def _process_item(kind, head, sub, meta, occ=None):
         rec["drops"].append("D2: everything in the function outside the anchored statement range")
     if kind == "arm":
         rec["drops"].append("D3: surrounding function, loop and other arms")
+    if kind == "fn":
+        # D4: visibility qualifiers have no run-time meaning in a single-file build
+        text2 = re.sub(r"^pub\s*\((crate|super)\)", "pub", text)
+        if text2 != text:
+            rec["drops"].append("D4: pub(crate)/pub(super) -> pub")
+            text = text2
     # 1. rewrites on the raw text
     for (d, tail, lines) in sub:
         mm = re.match(r"rewrite(?:x(\d+))?$", d)
@@ -254,6 +262,39 @@ def _expand(path, meta):
                                       drops=["D1: attributes and comments", "D4: pub(crate)/pub(super)/private -> pub"]))
             segs.append(Seg(txt + "\n", "code", dict(rec=dict(file=rel, item=name, line=src.count("\n", 0, t["start"]) + 1), off=0)))
             i += 1
+        elif s.startswith("//@stub "):
+            # R2: opaque callee declared from its REAL signature; following lines (until //@end) are the ASSUMED contract
+            _, rel, path = s.split()[:3]
+            src, m = repo_file(rel)
+            f = R.find_fn(src, m, path)
+            sig = src[f["start"]:f["body_open"]].rstrip()
+            sm = R.mask(sig)
+            d = 0
+            arrow = -1
+            for k, c in enumerate(sm):
+                if c in "([<":
+                    d += 1 if c != "<" else 0
+                elif c in ")]":
+                    d -= 1
+                elif c == "-" and sm[k:k + 2] == "->" and d == 0:
+                    arrow = k
+            if arrow >= 0:
+                ret = sig[arrow + 2:].strip()
+                wh = ""
+                mw = re.search(r"\bwhere\b", ret)
+                if mw:
+                    wh = " " + ret[mw.start():]
+                    ret = ret[:mw.start()].strip()
+                sig = sig[:arrow] + "-> (r: " + ret + ")" + wh
+            sig = re.sub(r"\bpub\s*\((crate|super)\)", "pub", sig)
+            spec = []
+            i += 1
+            while i < n and lines[i].strip() != "//@end":
+                spec.append(lines[i])
+                i += 1
+            i += 1
+            meta.setdefault("stubs", []).append(dict(file=rel, item=path, signature_sha256=hashlib.sha256(sig.encode()).hexdigest()))
+            segs.append(Seg("#[verifier::external_body]\n" + sig + "\n" + "\n".join(spec) + "\n{ unimplemented!() }\n", "tmpl", dict(file=tname, line=i)))
         elif re.match(r"//@(fn|fragment|arm)(#\d+)? ", s):
             mm = re.match(r"//@(fn|fragment|arm)(?:#(\d+))? (.*)$", s)
             kind, head = mm.group(1), mm.group(3)
